@@ -30,8 +30,8 @@ EXPLANATION = (
     "values travel through like-named hops and the `is not None` guard tests the setting that is stored, (b) a countdown "
     "whose completion is tested with `== 0` after the decrement is armed only with values provably >= 1 (max(duration, 1)) - "
     "armed with a configured 0 it never completes -, (c) the completed node scan scans every process, service and application "
-    "R14.7 the numeric settings this property depends on are never tested by truthiness (`x or default`, `if x:`), because 0 is a legal value for them. "
-    "unconditionally. NOT decided: "
+    "unconditionally. R14.7 the numeric settings this property depends on are never tested by truthiness (`x or default`, `if x:`) - 0 is a legal value for them. "
+    "NOT decided: "
     "'exactly N ticks' (counter arithmetic, including durations 0 and 1); what happens to a running fix when another "
     "event (compromise, overwhelm, web request) overwrites FIXING (needs a reference model); File(**model_dump()) in "
     "FileSystem.copy_file copies both health fields of the source into the new object (construction, not a store)."
